@@ -16,7 +16,8 @@ RULE = ('estimated models (2..6 states, all label alphabets, lag 1..4), disjoint
         'order; histogram form: density vs exact (1e-12), edges exact multiples of the lag; '
         'msm.estimate_paths must equal the md pathway extraction of the chain from the same generator '
         'state; overlapping / absent states rejected. Non-trivial: >= 1 closed event and >= 1 frame '
-        'outside both basins.')
+        'outside both basins.'
+        ' Added classes: the sampling table itself against the exact model (as in C07), a transition of probability < 1e-5, a lag of 1e6 frames (durations x lag > 2^31), > 64/128 states, > 2^20 steps (pathways vs md extraction of the chain from the same generator state), related history first.')
 TRUSTED = ['generator uniformity (the distributional sentence of the property reduces to C07 + this coupling)']
 ASSUMPTIONS = []
 BATCH = 40
